@@ -37,7 +37,7 @@ func rx1LongHistories(s *cases.Set, thorough bool, cfgs []bandcfg.Config) {
 		f0 := base[0] + 10*200000
 		main := !c.Repeater && !c.Dwell
 		if probe.AddChannel(f0, lo, hi) == nil {
-			ns := []int{14, 100}
+			ns := []int{14, 33}
 			if main || thorough {
 				ns = []int{13, 14, 15, 16, 17, 31, 32, 33, 48, 64, 94, 100}
 			}
